@@ -57,7 +57,8 @@ namespace svmon
       unsigned char *raw = static_cast<unsigned char *> (std::malloc (front + bytes + REDZONE));
       if (! raw) { std::fputs ("svmon: ledger out of memory\n", stderr); std::abort (); }
       std::memset (raw, CANARY, front);
-      std::memset (raw + front, POISON_NEW, bytes);
+      static const bool no_poison = std::getenv ("SVMON_NO_POISON") != 0;   // valgrind runs: keep fresh blocks "undefined"
+      if (! no_poison) std::memset (raw + front, POISON_NEW, bytes);
       std::memset (raw + front + bytes, CANARY, REDZONE);
       SVMON_POISON (raw, front);
       SVMON_POISON (raw + front + bytes, REDZONE);
